@@ -46,6 +46,7 @@ def check(ctx):
             return
     _threading(ctx, P)
     _kernel(ctx, P)
+    _mask_many(ctx, P)
     _log(ctx, P)
     _naming(ctx, P)
     _guards(ctx, P)
@@ -276,9 +277,54 @@ def _kernel(ctx, P):
                     ctx.ok("R08.3", inst + " [mask]", "masked" if (mask and outside) else "kept")
 
 
+def _mask_many(ctx, P):
+    """R08.3 on three levels in arbitrary order: every level is masked iff it lies strictly outside [min, max],
+    wherever it stands in the level array (target levels may come in any order)."""
+    import itertools
+
+    kfi = P.func("transform:_interp_1d_linear")
+    slots = {"below": 0, "=min": 2, "inside": 4, "=max": 6, "above": 8}
+    n = 0
+    first = None
+    for mask in (True, False):
+        for combo in itertools.product(slots, repeat=3):
+            order = OrderType({"tmin": 2, "tmax": 6, "l0": slots[combo[0]], "l1": slots[combo[1]], "l2": slots[combo[2]]})
+            ev = KernelEval(P, order, models={"numpy.interp": lambda ev, a, k, n_: Obj("ndarray", "INTERP-RESULT"), "numpy.nanmax": lambda ev, a, k, n_: Lin.sym("tmax"),
+                                              "numpy.nanmin": lambda ev, a, k, n_: Lin.sym("tmin")})
+            out = Obj("ndarray", "output")
+            try:
+                outs = ev.run_paths(kfi, lambda: dict(phi=Obj("ndarray", "phi"), theta=Obj("ndarray", "theta"), target_theta_levels=[Lin.sym("l0"), Lin.sym("l1"), Lin.sym("l2")],
+                                                      mask_edges=mask, bypass_checks=True, output=out))
+            except Unmodelled as e:
+                ctx.unknown("R08.3", f"levels {combo}", str(e))
+                return
+            n += 1
+            want = {i for i, c in enumerate(combo) if mask and c in ("below", "above")}
+            for o in outs:
+                if o.kind != "return":
+                    first = first or (combo, mask, f"{o.kind} {o.value}")
+                    continue
+                got = set()
+                for e in o.events:
+                    if e[0] == "setitem" and isinstance(e[1], Obj) and e[1].name == "output" and isinstance(e[2], int) and not isinstance(e[2], bool):
+                        v = e[3]
+                        if isinstance(v, float) and v != v or str(getattr(v, "path", "")).endswith("nan"):
+                            got.add(e[2])
+                        else:
+                            got.add(("non-nan", e[2]))
+                if got != want:
+                    first = first or (combo, mask, f"levels masked: {sorted(map(str, got))}, expected {sorted(want)}")
+    ctx.note("mask_level_orderings", n)
+    if first:
+        combo, mask, why = first
+        ctx.report("R08.3", kfi, "edge mask on three levels in arbitrary order", f"levels {list(combo)} (relative to [min, max]) with mask_edges={mask}: {why}; every level strictly outside the range must be NaN wherever it stands among the levels")
+    else:
+        ctx.ok("R08.3", f"edge mask on three levels, {n} orderings", "each level masked iff strictly outside, independent of its place in the array")
+
+
 def _log(ctx, P):
     fi = P.func("transform:interp_1d_linear")
-    for logarithmic in (True, False):
+    for logarithmic, bypass in ((True, Sym("B")), (False, Sym("B")), (False, False), (False, True), (True, False)):
         calls = []
 
         def m_k(ev, args, kw, node):
@@ -286,17 +332,17 @@ def _log(ctx, P):
             return Obj("ndarray", "OUT")
 
         ev = Evaluator(P, models={"transform:_interp_1d_linear": m_k})
-        inst = f"interp_1d_linear(logarithmic={logarithmic})"
+        inst = f"interp_1d_linear(logarithmic={logarithmic}, bypass_checks={bypass!r})"
         try:
-            outs = ev.run_paths(fi, lambda: dict(phi=Obj("ndarray", "phi"), theta=Obj("ndarray", "theta"), target_theta_levels=Obj("ndarray", "levels"), mask_edges=Sym("M"), bypass_checks=Sym("B"), logarithmic=logarithmic))
+            outs = ev.run_paths(fi, lambda: dict(phi=Obj("ndarray", "phi"), theta=Obj("ndarray", "theta"), target_theta_levels=Obj("ndarray", "levels"), mask_edges=Sym("M"), bypass_checks=bypass, logarithmic=logarithmic))
         except Unmodelled as e:
             ctx.unknown("R08.2", inst, str(e))
             continue
         bad = None
-        if len(calls) != 1 or outs[0].kind != "return":
-            bad = "the kernel is not called exactly once"
-        else:
-            phi, theta, lev, m, b = calls[0][:5]
+        if len(calls) != len(outs) or any(o.kind != "return" for o in outs) or not calls:
+            bad = "the kernel is not called exactly once per path"
+        for call in calls:
+            phi, theta, lev, m, b = call[:5]
 
             def logged(x, name):
                 if isinstance(x, Obj) and x.kind == "ext" and x.name == "numpy.log":
@@ -313,8 +359,8 @@ def _log(ctx, P):
                 bad = "with method 'log' the logarithm must be applied to theta AND to the target levels (" + ("theta only" if logged(theta, "theta") else "levels only" if logged(lev, "levels") else "neither") + " is)"
             elif not logarithmic and not (plain(theta, "theta") and plain(lev, "levels")):
                 bad = "without `logarithmic` theta / levels are transformed"
-            elif m != Sym("M") or b != Sym("B"):
-                bad = "mask_edges / bypass_checks are not passed to the kernel in this order"
+            elif m != Sym("M") or b is not bypass and b != bypass or type(b) is not type(bypass):
+                bad = f"mask_edges / bypass_checks are not handed to the per-column kernel unchanged (bypass_checks={b!r} for {bypass!r}): the direction of each column must be tested inside the kernel, column by column"
         if bad:
             ctx.report("R08.2", fi, inst, bad)
         else:
